@@ -268,7 +268,7 @@ func OpenFlagSets() []int { return openFlagSets }
 
 var dirPerms = []uint32{0o755, 0o700, 0o777, 0o750, 0, 0o1777, 0o755, 0o2755, 0o4711}
 var filePerms = []uint32{0o644, 0o600, 0o666, 0o400, 0, 0o4755, 0o644, 0o2644, 0o1600, 0o6775}
-var chmodPerms = []uint32{0, 0o644, 0o755, 0o777, 0o1777, 0o400, 0o1755, 0o600, 0o4755, 0o2750, 0o6711, 0o2644}
+var chmodPerms = []uint32{0, 0o644, 0o755, 0o777, 0o1777, 0o400, 0o1755, 0o600, 0o4755, 0o2750, 0o6711, 0o2644, 0o100755, 0o200777, 0o400644, 0o100000}
 var ids = []int64{-1, 0, 1000}
 var truncSizes = []int64{-1, 0, 1, 3, 7, 40}
 
@@ -449,7 +449,7 @@ func (g *G) try() (fsx.Op, bool) {
 		if g.R.IntN(3) == 0 {
 			dir = ""
 		}
-		return fsx.Op{K: k, P: dir, Q: g.pick([]string{"", "x*y", "a/b", "pre"}), H: 8}, true
+		return fsx.Op{K: k, P: dir, Q: g.pick([]string{"", "x*y", "a/b", "pre", "a*b*c", "**", "x*y*", "*"}), H: 8}, true
 	case x < 830:
 		return fsx.Op{K: "Stat", P: g.Path()}, true
 	case x < 860:
